@@ -231,4 +231,23 @@ theorem value_from_dict_eq (S : Schema) (E : Enums) (k : Nat) (c : Nat) (sl : Li
   simp only [JsonMsg.onInstance]
   exact from_dict_inst_eq S c sl ow unk cur _ _ hfin
 
+/-! ### `from_json` -/
+
+/-- **`m.from_json(text)` as written is the model's `fromDictI` of `json.loads(text)`** -/
+theorem value_from_json_eq (S : Schema) (E : Enums) (k : Nat) (c : Nat) (sl : List Val) (ow : Bool) (unk : Bytes)
+    (cur : List (Option Nat)) (text : JsonMsg.JText) (h : ∀ j, JsonMsg.jsonLoads text = .ok j → jOkAt S (k + 1) j = true) :
+    forget (Src.value_from_json S E k (.msg c sl ow unk cur) text)
+      = forget ((JsonMsg.jsonLoads text).bind fun j => ofR (fromDictI S E (.msg c sl ow unk cur) j)) := by
+  unfold Src.value_from_json Src.json_from_json
+  simp only [JsonMsg.onInstance]
+  cases hl : JsonMsg.jsonLoads text with
+  | ok j =>
+    have := value_from_dict_eq S E k c sl ow unk cur j (h j hl)
+    unfold Src.value_from_dict at this
+    simp only [JsonMsg.onInstance] at this
+    simp only [res_bind_ok, res_bind_eta]
+    exact this
+  | raise e => rfl
+  | diverge => rfl
+
 end Bp.SrcTieJsonMsgLoad
